@@ -532,7 +532,10 @@ C17_exact(step) ==
   Cl("C17_exact", step.exc = "none",
      step.final.named = "new" /\ step.final.others = <<>> /\ step.final.ntmp = 0)
 C17_keep(step) ==
-  Cl("C17_keep", step.exc # "none", step.final.named \in {Before(step), "new"} /\ step.final.others = <<>>)
+  Cl("C17_keep", step.exc # "none",
+     /\ step.final.named \in {Before(step), "new"} /\ step.final.others = <<>>
+     \* "nowhere else": no temporary file is left behind in the destination's directory
+     /\ step.final.ndest = 0)
 C17_propagate(step) == Cl("C17_propagate", step.fired, step.exc # "none")
 C17Clauses(step) ==
   IF step.op.op = "Save" THEN {C17_atomic(step), C17_exact(step), C17_keep(step), C17_propagate(step)} ELSE {}
